@@ -362,6 +362,39 @@ func determStream(r *Run) {
 			r.Emit(c, replayers["determ"](r, f))
 		}
 	}
+	// a fixed family: maps whose keys stress the key order itself — integer keys of every width that
+	// are large and closely spaced (beyond float64 precision), negative, mixed magnitudes; many string
+	// keys sharing prefixes — consumed by every construct that iterates or converts a map
+	{
+		g := NewRNG(r.Seed, "determ/fixed")
+		big := func(kind int, base int64, n int) *V {
+			var kvs [][2]*V
+			for j := 0; j < n; j++ {
+				kvs = append(kvs, KV(VInt(kind, base+int64(j)), VStr(string(rune('a'+j)))))
+			}
+			return VMap(TInt(kind), TStr, kvs...)
+		}
+		var skvs [][2]*V
+		for j := 0; j < 10; j++ {
+			skvs = append(skvs, SKV(strings.Repeat("k", 1+j%3)+fmt.Sprint(j), VInt(0, int64(j))))
+		}
+		maps := []*V{big(4, 1<<60, 8), big(4, -(1 << 60), 8), big(0, 1<<53, 6), big(4, (1<<62)-4, 8), big(9, 1<<62, 8), big(3, 1<<30, 5), big(4, -3, 7), VStrMap(skvs...)}
+		tmpls := []string{"{% for kv in m %}{{ kv[1] }}{% endfor %}", "{{ m | join: '' }}", "{{ m | first }}{{ m | last }}", "{% tablerow kv in m cols:3 %}{{ kv[1] }}{% endtablerow %}",
+			"{{ m | sort | join: ',' }}", "{{ m | reverse | join: ',' }}", "{% for kv in m reversed limit:3 offset:1 %}{{ kv[0] }};{% endfor %}", "{{ m | uniq | size }}{{ m | map: 'x' | size }}"}
+		for _, m := range maps {
+			for _, src := range tmpls {
+				if !r.Mine() {
+					continue
+				}
+				env := map[string]*V{"m": m}
+				cl := "determ " + engineCfg{}.Enc() + " " + hexField(src) + " " + EncEnv(env)
+				res := determCase(r, engineCfg{}, src, env, cl, g, false)
+				r.Count("fixed-family")
+				r.Nontrivial(cl)
+				r.Emit(cl, res)
+			}
+		}
+	}
 	n := 1600
 	nFree := 320
 	if r.Tier == "thorough" {
